@@ -55,6 +55,11 @@ CLAIMS = {
             "DESIGN.md 5/C13", ""),
 }
 
+CLAIMS["C18"] = ("Config::get_pg_config (real body, extracted) against a setter/getter model of tokio_postgres::Config: one labelled clause per field - scalar options override the URL value, "
+            "hosts / hostaddrs / ports are the URL's followed by the singular then the plural field (loop invariants, unbounded), default socket directories only when no host is given, empty "
+            "user/dbname count as unset, DbnameMissing / DbnameEmpty / InvalidUrl exactly; the four enum conversions are checked against their expected mapping; panic freedom; get_pool_config passes the pool section through.",
+            "DESIGN.md 5/C18", "tokio_postgres::Config is a trusted model (URL parsing is an uninterpreted function); create_pool/builder/get_manager_config are not extracted (TLS generics, derive(Clone)); the environment variable USER is arbitrary. ")
+
 NOT_APPLICABLE = {
     "C14": "thread placement, ordering of a destructor after a still-running cancelled closure, and mutex poisoning are not expressible as contracts: Verus has no notion of OS-thread identity, unwinding or poisoning, Kani has no threads; a syntactic scope fact would misrepresent the property (DESIGN.md 5/C14)",
 }
@@ -62,7 +67,6 @@ PENDING = {
     "C15": "check not built yet (sync/sqlite/r2d2/diesel manager recycle contracts are next in the build order, DESIGN.md section 11)",
     "C16": "check not built yet (postgres manager / statement cache unit is next in the build order)",
     "C17": "check not built yet (redis manager unit is next in the build order)",
-    "C18": "check not built yet (postgres Config unit is next in the build order)",
     "C19": "check not built yet (redis config units are next in the build order)",
 }
 
